@@ -18,3 +18,12 @@ func (pl *Playlist) VerifListed() []int {
 	}
 	return out
 }
+
+// VerifDurations returns the listed duration of every segment currently held.
+func (pl *Playlist) VerifDurations() map[int]float64 {
+	out := map[int]float64{}
+	for _, s := range pl.segments {
+		out[s.sequenceNo] = s.duration
+	}
+	return out
+}
